@@ -7,6 +7,10 @@ R2  restore_packets repeats, per GenericStorePacket variant, the bookkeeping an 
     pid_pubrec, PUBREL -> pid_pubcomp: the same sets the send handlers use), added to the store; QoS 0
     skipped; failed registration does not add to the store.
 R3  restored exchanges are counted against Receive Maximum when re-sent (C12-R1's send_stored instance).
+R4  the connect / resume path (initialize, CONNECT handlers without clean start, notify_closed of a stored session) leaves
+    the restored state untouched.
+R5  the store keeps acceptance order (no order-disturbing IndexMap operation), so the export and the retransmission after
+    a restore are in the original order.
 """
 import conn
 
@@ -162,4 +166,78 @@ def check(run, F, tier):
         r3.violation("send_stored", "restored/stored packets are re-sent without being counted against Receive Maximum", conn.path_summary(bad) if bad else None)
     else:
         r3.ok("send_stored", {"paths": n})
+
+    # ------------------------------------------------------------------ R4: what was restored survives until the resume
+    # Between restore_packets / restore_qos2_publish_handled and the session-present resume the application connects:
+    # that path (initialize; the CONNECT handlers without clean start; the CONNACK handlers with session present;
+    # notify_closed of a stored session) must leave the restored session state - the store, the QoS 2 handled set and
+    # the awaiting-acknowledgement sets - exactly as it is.
+    import modref
+    r4 = run.rule("C16-R4", "the connect / resume path leaves the restored session state (store, handled ids, awaited acks) untouched", floor=6)
+    N = modref.Norm(F)
+    KEEP = ["store", "qos2_publish_handled", "pid_puback", "pid_pubrec", "pid_pubcomp"]
+    recvh = conn.handlers(F, "process_recv")
+
+    def flag_val(p, method):
+        for e in p.effects:
+            if e[0] == "call" and e[1].endswith("::" + method):
+                c = p.cons.get(e[4][1])
+                if c == ("eq", 1):
+                    return True
+                if c == ("eq", 0):
+                    return False
+        return None
+    cases = [(ms["initialize"], None, None), (ms["notify_closed"], "need_store", True),
+             (sendh[("v3_1_1", "connect")], "clean_start", False), (sendh[("v5_0", "connect")], "clean_start", False),
+             (recvh[("v3_1_1", "connect")], "clean_session", False), (recvh[("v5_0", "connect")], "clean_start", False)]
+    for fobj, meth, val in cases:
+        pv = N.post_values(fobj["path"])
+        cnt = 0
+        badf = {}
+        for p, cur in pv:
+            if any(x.startswith("NotifyError") for x in (conn.word(p) or [])):
+                continue
+            if meth == "need_store":
+                if conn.bool_field_at_entry(F, p, "need_store") != {True}:
+                    continue
+            elif meth is not None and flag_val(p, meth) is not val:
+                continue
+            cnt += 1
+            for n_ in KEEP:
+                if cur.get(n_) != ("FIELD", n_):
+                    # emptying an awaiting set on close is fine only when the ids go back as well; here: any change is reported
+                    badf.setdefault(n_, (p, cur.get(n_)))
+        key = "%s%s" % (fobj["name"], ("/%s=%s" % (meth, val)) if meth else "")
+        if cnt == 0:
+            r4.violation(key, "no resume-side path found in %s (anchor lost)" % fobj["name"])
+            continue
+        if badf:
+            for n_, (p, v) in sorted(badf.items()):
+                r4.violation("%s/%s" % (key, n_), "%s (%s) changes restored session state: %s becomes %s before the session is resumed"
+                             % (fobj["name"], "always" if not meth else "%s=%s" % (meth, val), n_, v), conn.path_summary(p), site="%s:%s" % (fobj["file"], fobj["line"]))
+        else:
+            r4.ok(key, {"paths": cnt})
+
+    # ------------------------------------------------------------------ R5: export order = acceptance order
+    r5 = run.rule("C16-R5", "the store (exported as it is) keeps acceptance order: no order-disturbing operation in GenericStore", floor=1)
+    import re as _re
+    bad5, n5 = [], 0
+    for g in F.fns.values():
+        if not g.get("impl_self", "").startswith("mqtt::connection::store::GenericStore<") and not (g.get("kind") == "Closure" and "connection::store::" in g["path"]):
+            continue
+        for b in g["blocks"]:
+            t = b["term"]
+            if t["k"] == "call" and "fn" in t["func"].get("const", {}):
+                fi = t["func"]["const"]["fn"]
+                if fi["path"].startswith("indexmap::"):
+                    n5 += 1
+                    if _re.search(r"::(swap_remove\w*|swap_indices|move_index|sort\w*|reverse|pop|swap_take)$", fi["path"]):
+                        bad5.append((g["path"].split("::")[-1], fi["path"]))
+    if bad5:
+        for fn_, op_ in bad5:
+            r5.violation("%s@%s" % (op_.split("::")[-1], fn_), "GenericStore::%s calls %s: exported / retransmitted packets are no longer in acceptance order" % (fn_, op_))
+    elif n5 == 0:
+        r5.violation("anchor", "no IndexMap operation found in GenericStore (anchor lost)")
+    else:
+        r5.ok("indexmap-ops", {"indexmap_calls": n5})
     conn.prune_path_cache(F)
